@@ -15,7 +15,7 @@ static inline void fill_random(uint8_t *p, size_t n, uint64_t seed) {
     if (i < n) { uint64_t v = r.next(); memcpy(p + i, &v, n - i); }
 }
 
-static const char *content_kinds[] = {"empty", "one-byte", "random", "small-alphabet", "runs", "repeated-blocks", "text-markers", "zeros"};
+static const char *content_kinds[] = {"empty", "one-byte", "random", "small-alphabet", "runs", "repeated-blocks", "text-markers", "zeros", "passages"};
 
 // Content of `len` bytes of the given kind.
 static inline Bytes make_content(int kind, size_t len, uint64_t seed) {
@@ -30,6 +30,10 @@ static inline Bytes make_content(int kind, size_t len, uint64_t seed) {
               for (size_t i = 0; i < len; i++) b[i] = block[i % blk]; break; }
     case 6: { static const char *words[] = {"<text:p>", "lorem ", "ipsum ", "<<text:", "dolor\n", "sit amet ", "<office:", "0123456789", "\r\n", "zchunk "};
               size_t i = 0; while (i < len) { const char *w = words[r.below(10)]; for (; *w && i < len; w++) b[i++] = *w; } break; }
+    case 8: { // a few hundred passages of 150-700 characters recurring in random order with a little unique text between them: repeats that lie
+              // far apart (what long-distance matching, large windows and dictionaries change the encoding of); only asked for explicitly
+              std::vector<std::string> par(300); pbt::Rng pr(12345); for (auto &q : par) { size_t n = 150 + pr.below(550); for (size_t i = 0; i < n; i++) q += "abcdefghijklmnopqrstuvwxyz <>/=\"\n"[pr.below(33)]; }
+              size_t i = 0; while (i < len) { const std::string &q = par[r.below(300)]; for (size_t j = 0; j < q.size() && i < len; j++) b[i++] = (uint8_t)q[j]; for (int j = 0; j < 12 && i < len; j++) b[i++] = (uint8_t)('A' + r.below(26)); } break; }
     default: std::fill(b.begin(), b.end(), 0); break;
     }
     return b;
